@@ -15,13 +15,13 @@ from weakref import WeakValueDictionary
 
 import claripy
 from claripy import operations
+from claripy.annotation import Annotation
 from claripy.errors import BackendError, ClaripyOperationError
 from claripy.fp import FSort
 
 if TYPE_CHECKING:
     from collections.abc import Iterable, Iterator
 
-    from claripy.annotation import Annotation
     from claripy.backends import Backend
 
 log = logging.getLogger(__name__)
@@ -427,6 +427,14 @@ class Base:
             return struct.pack("d", arg)
         if isinstance(arg, tuple):
             return b"".join(b"<" + Base._arg_serialize(a) + b">" for a in arg)
+        if isinstance(arg, Annotation) and type(arg).__hash__ is not object.__hash__ and hasattr(arg, "__dict__"):
+            # An annotation with a content-based hash. Not hash(arg): Python's hash collides on small negative and on
+            # large integers (hash(-1) == hash(-2), hash(k) == hash(k + 2**61 - 1)), and an AST hash collision makes
+            # two different expressions one object.
+            with suppress(Exception):
+                return type(arg).__qualname__.encode() + b"".join(
+                    b"[" + k.encode() + b"=" + Base._arg_serialize(v) + b"]" for k, v in sorted(vars(arg).items())
+                )
         if hasattr(arg, "__hash__"):
             return hash(arg).to_bytes(8, "little", signed=True)
 
